@@ -4,6 +4,7 @@ package mon
 var Monitors = map[string]func(*Ctx){
 	"C01": C01,
 	"C02": C02,
+	"C03": C03,
 	"C04": C04,
 	"C05": C05,
 	"C06": C06,
